@@ -31,6 +31,7 @@ from .type import (
     JniParameter,
     JniFunction,
     JniErrorDomain,
+    JniFlags,
     jni_prefix
 )
 
@@ -45,6 +46,7 @@ class JniGenerator(Generator):
         Interface: JniInterface,
         Interface.Method: JniInterface.JniMethod,
         Function: JniFunction,
+        Flags: JniFlags,
         BaseField: JniBaseField,
         SymbolicConstantField: JniSymbolicConstantField,
         Record: JniRecord,
